@@ -75,9 +75,9 @@ def param_grid(n, try_adds=(True, False), max_nodes=(1, 2, None), sizes=None, ti
     return out
 
 
-def mk_scen(bb, gkw, est=None, assign=None, exit_codes=None, cancel=None, actors=None, **kw):
+def mk_scen(bb, gkw, est=None, assign=None, exit_codes=None, cancel=None, actors=None, gnames=None, **kw):
     n = len(bb)
-    gnames = ["default", "g2", "g3"]
+    gnames = gnames or ["default", "g2", "g3"]
     if assign is None:
         assign = (0,) * n
     ng = max(assign) + 1
@@ -156,6 +156,23 @@ def rep_tasks(oracles, budget, graphs=None, params=None, exit_sets=None, cancel_
     return tasks
 
 
+def user_round_tasks(oracles, budget, graphs, params=None):
+    """A user runs try-submit-jobs by hand at ANY point of the submission (not only when it is idle),
+    from the submitting host and from another host."""
+    tasks = []
+    for g in graphs:
+        bb = S.REP[g]
+        n = len(bb)
+        for tag, gkw in (params or [("sz1-mx2", dict(size=1, max_nodes=2)), ("sz1-mxN", dict(size=1, max_nodes=None))]):
+            for host in ("login1", "login7"):
+                actors = [dict(name="usr", argv=["jade", "try-submit-jobs", "{out}"], host=host, guard="submitted"),
+                          rec_actor(n)]
+                sc = mk_scen(bb, gkw, actors=actors)
+                tasks.append(dict(id=f"usr-{g}-{tag}-{host}-b{budget[0]}", scen=sc, oracles=["Obs"] + oracles,
+                                  budget=budget, cls="user-round+" + _cls(bb, gkw)))
+    return tasks
+
+
 S_RULE = ("each evaluation is one complete execution of the real JADE CLI entry points (login submit-jobs, "
           "one run-jobs per accepted sbatch, recovery try-submit-jobs) over the simulated scheduler, "
           "identified by its sequence of scheduler choices; enumerated depth-first by prefix replay up to "
@@ -167,12 +184,21 @@ S_RULE = ("each evaluation is one complete execution of the real JADE CLI entry 
 def c01(tier):
     if tier == "quick":
         tasks = input_grid_tasks(["C01"], ns=(1, 2, 3))
-        tasks += rep_tasks(["C01"], (1, 0), graphs=["chain3", "fork", "join", "diamondr", "twocomp", "indep3", "indep4"])
-        bounds = "inputs: G(1..3) x parameter grid at budget 0 (all job-finish orders); schedules: 7 REP graphs x 4 parameter sets at 1 preemption"
+        tasks += rep_tasks(["C01"], (1, 0), graphs=["chain3", "fork", "join", "diamondr", "twocomp", "indep3"])
+        heavy = shard(rep_tasks(["C01"], (1, 0), graphs=["indep4"]), 4)
+        for t in heavy:
+            t["weight"] = 10
+        tasks += heavy
+        tasks += user_round_tasks(["C01"], (0, 0), ["indep3", "fork"])
+        tasks += outcome_tasks(["C01"], ns=(2, 3), params=[C03_PARAMS[0], C03_PARAMS[1], C03_PARAMS[4]])
+        bounds = "inputs: G(1..3) x parameter grid at budget 0 (all job-finish orders); schedules: 7 REP graphs x 4 parameter sets at 1 preemption; a user-run try-submit-jobs from the login host and from another host starting at any point (free start) on 2 graphs; G(2..3) x exit codes x cancel flags x 3 parameter sets at budget 0"
     else:
         tasks = input_grid_tasks(["C01"], ns=(1, 2, 3))
         tasks += input_grid_tasks(["C01"], ns=(4,), two_groups=False, max_nodes=(1, None), caps=(3,))
         tasks += rep_tasks(["C01"], (2, 0))
+        tasks += user_round_tasks(["C01"], (1, 0), ["indep3", "indep4", "fork", "twocomp"])
+        tasks += outcome_tasks(["C01"], ns=(2, 3), params=C03_PARAMS[:5])
+        tasks += rep_tasks(["C01"], (1, 0), graphs=["chain3", "fork", "diamond", "chain4"], exit_sets=fail_sets, cancel_sets=flag_sets)
         bounds = "inputs: G(1..4) (n=4 reduced grid) at budget 0; schedules: all REP graphs x 4 parameter sets at 2 preemptions"
     return explore_check("C01", tier, tasks, S_RULE, COMMON_ASSUMPTIONS, dict(bounds=bounds))
 
@@ -346,12 +372,18 @@ def _c0304(prop, tier):
         tasks = outcome_tasks([prop], ns=(1, 2, 3))
         tasks += rep_tasks([prop], (1, 0), graphs=["chain3", "chain3r", "fork", "join", "diamond"],
                            params=REP_PARAMS[:2], exit_sets=fail_sets, cancel_sets=flag_sets)
+        tasks += user_round_tasks([prop], (1, 0), ["pair", "chain2"], params=[("sz1-mxN", dict(size=1, max_nodes=None))])
+        tasks += user_round_tasks([prop], (0, 0), ["indep3", "fork"])
+        tasks += rep_tasks([prop], (0, 0), graphs=["cancelfan7"], params=[("one-batch-q2", dict(size=7, nproc=2)), ("sz3-q2", dict(size=3, nproc=2))],
+                           exit_sets=lambda n: [(0, 1, 0, 0, 0, 0, 0)], cancel_sets=lambda n: [(0, 0, 1, 1, 1, 0, 0)])
         bounds = ("G(1..3) x exit codes {0,1}^n x cancel flags on blocked jobs x 6 parameter sets (incl. two groups, max-nodes 1, local) "
-                  "at budget 0 with all finish orders; 5 REP graphs x single failures x flags at 1 preemption with the recovery actor")
+                  "at budget 0 with all finish orders; 5 REP graphs x single failures x flags at 1 preemption with the recovery actor; a user-run try-submit-jobs at any point (1 preemption on 2-job graphs, budget 0 on 3-job graphs); a 7-job cancel fan-out in one batch")
     else:
         tasks = outcome_tasks([prop], ns=(1, 2, 3))
         tasks += outcome_tasks([prop], ns=(2, 3), codes=(0, 2, 255), params=C03_PARAMS[:2])
         tasks += rep_tasks([prop], (2, 0), params=REP_PARAMS, exit_sets=fail_sets, cancel_sets=flag_sets)
+        tasks += user_round_tasks([prop], (2, 0), ["pair", "chain2"], params=[("sz1-mxN", dict(size=1, max_nodes=None))])
+        tasks += user_round_tasks([prop], (1, 0), ["indep3", "fork", "chain3"])
         bounds = "as quick plus exit codes {0,2,255}; all REP graphs x single failures x flags at 2 preemptions"
     return explore_check(prop, tier, tasks, S_RULE, COMMON_ASSUMPTIONS, dict(bounds=bounds))
 
@@ -386,7 +418,14 @@ def c05(tier):
         t["id"] += "-showstatus"
         tasks.append(t)
     tasks += input_grid_tasks(["C05"], ns=(1, 2, 3))
-    bounds = f"REP graphs x max-nodes {{1,2,unset}} at {b[0]} preemption(s) with the recovery actor (try-submit-jobs and show-status -n forms, re-armed up to n_jobs+2 times); G(1..3) x parameter grid at budget 0"
+    tasks += user_round_tasks(["C05"], (1, 0), ["pair", "chain2"], params=[("sz1-mxN", dict(size=1, max_nodes=None))])
+    tasks += user_round_tasks(["C05"], (0, 0) if tier == "quick" else (1, 0), ["indep3", "fork"])
+    # the order of 'results summary, then flag' is only visible when unprotected files are sync points (L1)
+    for t in rep_tasks(["C05"], (0, 0) if tier == "quick" else (1, 0), graphs=["pair", "chain3", "fork"], params=params[2:]):
+        t["scen"]["level"] = 1
+        t["id"] += "-L1"
+        tasks.append(t)
+    bounds = f"REP graphs x max-nodes {{1,2,unset}} at {b[0]} preemption(s) with the recovery actor (try-submit-jobs and show-status -n forms, re-armed up to n_jobs+2 times); G(1..3) x parameter grid at budget 0; a user-run try-submit-jobs at any point; 3 graphs at sync level L1 (results.json / marker accesses are scheduling points)"
     return explore_check("C05", tier, tasks, S_RULE, COMMON_ASSUMPTIONS, dict(bounds=bounds))
 
 
@@ -410,7 +449,28 @@ def c06(tier):
                 tasks.append(dict(id=f"g3.{gi}-sz2-mx{mx}-q{nproc}", scen=sc, oracles=["Obs", "C06"],
                                   budget=(1, 0) if tier == "thorough" else (0, 0), cls="grid"))
     tasks += local_tasks(["C06"], ns=(2, 3))
-    bounds = f"REP graphs x max-nodes {{1,2}} x processes {{1,2,unset/2 CPUs}} x batch sizes 1-3 at {b[0]} preemption(s); G(3) grid; local mode"
+    # failures + cancel flags inside one queue (canceled jobs pass through the queue's accounting)
+    fan = dict(exit_sets=lambda n: [(0, 1, 0, 0, 0, 0, 0)], cancel_sets=lambda n: [(0, 0, 1, 1, 1, 0, 0)])
+    tasks += rep_tasks(["C06"], (0, 0), graphs=["cancelfan7"], params=[("one-batch-q2", dict(size=7, nproc=2)), ("one-batch-q1", dict(size=7, nproc=1)),
+                                                                       ("sz4-q2-mx1", dict(size=4, nproc=2, max_nodes=1))], **fan)
+    t = rep_tasks(["C06"], (0, 0), graphs=["cancelfan7"], params=[("local-q2", dict(nproc=2))], mode="local", actors=[], **fan)
+    tasks += t
+    tasks += rep_tasks(["C06"], (0, 0) if tier == "quick" else (1, 0), graphs=["chain3", "fork", "diamond", "wide5"],
+                       params=[("sz3-q2-mx1", dict(size=3, nproc=2, max_nodes=1)), ("sz2-q1-mx2", dict(size=2, nproc=1, max_nodes=2))],
+                       exit_sets=fail_sets, cancel_sets=lambda n: [(1,) * n])
+    # two groups with different process limits
+    for g in ("indep4", "twocomp", "wide5"):
+        bb = S.REP[g]
+        for q1, q2 in ((2, 1), (None, 1), (1, 2)):
+            sc = mk_scen(bb, dict(size=2, max_nodes=2, nproc=q1), assign=tuple(i % 2 for i in range(len(bb))))
+            sc["groups"][1]["nproc"] = q2
+            tasks.append(dict(id=f"c06-2groups-{g}-q{q1}-q{q2}", scen=sc, oracles=["Obs", "C06"], budget=(0, 0) if tier == "quick" else (1, 0), cls="2groups"))
+    # a failing status query must not make the limit forgettable
+    for t in rep_tasks(["C06"], (0, 1), graphs=["indep3", "indep4"], params=[("sz1-mx1", dict(size=1, max_nodes=1)), ("sz1-mx2", dict(size=1, max_nodes=2))]):
+        t["fault"] = dict(plan="c11", kinds=["squeue"])
+        t["id"] += "-squeue-fault"
+        tasks.append(t)
+    bounds = f"REP graphs x max-nodes {{1,2}} x processes {{1,2,unset/2 CPUs}} x batch sizes 1-3 at {b[0]} preemption(s); G(3) grid; local mode; failures + cancel flags (incl. a 7-job cancel fan-out in one queue); two groups with different process limits; one failing status query (squeue down for a whole round)"
     return explore_check("C06", tier, tasks, S_RULE, COMMON_ASSUMPTIONS, dict(bounds=bounds))
 
 
@@ -488,7 +548,8 @@ def c07_tasks(ns, tier):
                 for a in assigns:
                     if max(a) > 0 and not gkw.get("try_add", True) and n >= 3:
                         continue
-                    sc = mk_scen(bb, gkw, est=est, assign=a)
+                    sc = mk_scen(bb, gkw, est=est, assign=a,
+                                 gnames=["zz_listed_first", "aa_listed_second"] if (gi + len(tasks)) % 2 and max(a) > 0 else None)
                     if len(sc["groups"]) > 1:
                         g2 = sc["groups"][1]
                         g2.update(G2_VARIANT)
@@ -500,6 +561,18 @@ def c07_tasks(ns, tier):
                     # node-side try-submit of a non-distributed group does not run: keep recovery
                     tasks.append(dict(id=f"g{n}.{gi}-{tag}-a{''.join(map(str, a))}", scen=sc,
                                       oracles=["Obs", "C07", "FirstRound"], budget=(0, 0), cls=_cls(bb, gkw, a)))
+    return tasks
+
+
+def c07_walltime_tasks():
+    """Time-based batching with walltimes of hours/days (estimates scaled to the capacity)."""
+    tasks = []
+    for wt, cap in (("12:00:00", 720), ("1:30:00", 90), ("24:00:00", 1440), ("100:00:00", 6000), ("0:45:30", 45)):
+        for ests in ((cap // 2,) * 3, (cap, 1, cap - 1), (cap // 3,) * 4):
+            for nproc in (1, 2):
+                bb = [[] for _ in ests]
+                sc = mk_scen(bb, dict(time_based=True, walltime=wt, nproc=nproc, try_add=True, max_nodes=None), est=ests)
+                tasks.append(dict(id=f"c07-wt{wt}-e{ests}-q{nproc}", scen=sc, oracles=["Obs", "C07"], budget=(0, 0), cls="time_based+long-walltime"))
     return tasks
 
 
@@ -535,6 +608,7 @@ def _first_round_task(task):
 def c07(tier):
     ns = (1, 2, 3) if tier == "quick" else (1, 2, 3, 4)
     tasks = c07_tasks(ns, tier)
+    tasks += c07_walltime_tasks()
     # dry-run twins: expectation = the first round of the real run (computed by running it)
     step = 3 if tier == "quick" else 2
     base = [t for i, t in enumerate(tasks) if i % step == 0]
@@ -547,7 +621,7 @@ def c07(tier):
         twins.append(_dry_twin(t, fr))
     tasks = tasks + twins
     bounds = (f"all DAGs on {ns} jobs x (count sizes 1..n | time-based estimates {{1,2}}^n x capacity 2/3 min) x try-add on/off x max-nodes x "
-              f"group assignments (second group with different SLURM fields, processes, distributed/verbose options, prefix); every batch of every round of the "
+              f"group assignments (second group with different SLURM fields, processes, distributed/verbose options, prefix; group names listed alphabetically and not); walltimes of minutes, hours and days; every batch of every round of the "
               f"default schedule with all finish orders; dry-run twin of every {step}rd/nd scenario compared with the real first round")
     return explore_check("C07", tier, tasks, S_RULE + "; C07 evaluates its oracle at every sbatch (all rounds reached) and on the files a dry run leaves",
                          COMMON_ASSUMPTIONS, dict(bounds=bounds, dry_twins=len(twins), dry_twin_errors=errors[:5]))
